@@ -484,6 +484,29 @@ func (g *mgen) program() (string, [][]int) {
 // arguments) so that the 32-bit wire-id encoding and the second 64Ki wire
 // page are used, with few gates.
 func (g *mgen) large() (string, [][]int) {
+	if g.ch(2) == 0 {
+		// the inputs end just around wire 65536, so that the first wires after
+		// the inputs (constants, evaluator input, computed values) sit exactly
+		// on the boundary between the 16-bit and the 32-bit wire-id encoding
+		n := 2030 + g.ch(22)
+		k := []int{32, 64, 100, 150, 200, 230, 280, 17}[g.ch(8)]
+		if g.ch(3) == 0 {
+			k = 8 + g.ch(300)
+		}
+		var b strings.Builder
+		fmt.Fprintf(&b, "package main\n\nfunc main(a [%d]uint32, b uint%d) (uint32, uint%d, uint%d) {\n", n, k, k, k)
+		fmt.Fprintf(&b, "\tx := a[%d] + uint32(b)\n", g.ch(n))
+		fmt.Fprintf(&b, "\ty := b + uint%d(a[%d])\n", k, g.ch(n))
+		fmt.Fprintf(&b, "\tz := y + b\n")
+		if k <= 64 {
+			fmt.Fprintf(&b, "\tw := z * y\n")
+		} else {
+			fmt.Fprintf(&b, "\tw := z ^ (y << %d)\n", g.ch(9))
+		}
+		fmt.Fprintf(&b, "\tv := w + uint%d(x)\n", k)
+		fmt.Fprintf(&b, "\treturn x + a[0], v, w - z\n}\n")
+		return b.String(), [][]int{{8}, {8}}
+	}
 	n := 520 + g.ch(200)
 	i1, i2, i3 := g.ch(n), g.ch(n), n-1-g.ch(3)
 	from := g.ch(n - 10)
